@@ -1,1 +1,361 @@
-From EpyV Require Import Model.Kernel.
+(* C04 - posted events fire exactly once, at their time, in posting order on ties (the posted-event
+   queue of Model/Kernel.v against its abstract reading: the LIVE entries ordered by (time, id)).
+   Statements only; the proofs are in Proofs/Kernel*.v.  Everything is for every user-state type W,
+   every table (arbitrary handler programs that post / un-post / query / change loci), every
+   oracle and every fuel.
+
+   Vocabulary:
+     wf s               ids in the queue are pairwise distinct and < nextid s (holds after set-up and
+                        is preserved by every operation, C04_wf_action etc.)
+     before a b         the heap order: earlier time, or equal time (==) and smaller id
+     dead x / unposted x   x with e_live := false / the record OUnpost (e_id x) (Some (Some (e_time x)))
+     gone_st i s        id i was allocated (< nextid) and no live entry carries it
+     the_id k s         ids[k mod |ids|], the id an AUnpost k / AQuery k addresses
+     pending_fired tb fuel t n s   the entries popped and fired by run_pending tb fuel t n s, in order
+     stoch_fired / sync_fired      the same for a whole run
+     hrec x             OHandler (e_prog x) (e_time x) (e_time x) (e_elem x) None: what firing x records
+     succ_of x ddt y    y = the entry a repeating x posts when it fires: time Qred (e_time x + ddt),
+                        same process, element, program and period
+     absq q             the abstract queue: the live entries of q sorted by [before] (Proofs/KernelAbs.v) *)
+From Coq Require Import List ZArith QArith Qabs Bool Arith Lia Lqa Sorted.
+From EpyV Require Import Model.Kernel Proofs.KernelBase Proofs.KernelLoops Proofs.KernelQueue
+  Proofs.KernelFire Proofs.KernelTime Proofs.KernelResults Proofs.KernelAbs Proofs.KernelExample.
+Import ListNotations.
+Open Scope Q_scope.
+
+(* ------------------------------------------------------------------ post *)
+Theorem C04_past_rejected : forall W (s : st W) t p e prog rep,
+  Qltb t (clock s) = true -> post t p e prog rep s = (None, s).
+Proof. intros W s t p e prog rep. exact (post_rejected t p e prog rep s). Qed.
+
+Theorem C04_post_accepted : forall W (s : st W) t p e prog rep,
+  Qltb t (clock s) = false ->
+  exists s', post t p e prog rep s = (Some (nextid s), s') /\
+    queue s' = mk_entry t (nextid s) p e prog rep :: queue s /\ nextid s' = S (nextid s) /\
+    clock s' = clock s /\ out s' = out s.
+Proof. intros W s t p e prog rep. exact (post_accepted t p e prog rep s). Qed.
+
+(* ------------------------------------------------------------------ well-formedness is invariant *)
+Theorem C04_wf_action : forall W (s : st W) p t e a, wf s -> wf (do_action p t e a s).
+Proof. intros W s p t e a. exact (do_action_wf p t e a s). Qed.
+
+Theorem C04_wf_run_pending : forall W (tb : table W) fuel t n s n' s',
+  wf s -> run_pending tb fuel t n s = (n', s') -> wf s'.
+Proof. intros W tb fuel t n s n' s' Hw H. exact (run_pendingL_wf tb fuel t n s n' s' _ Hw (run_pending_L _ _ _ _ _ _ _ H)). Qed.
+
+Theorem C04_wf_runs : forall W (tb : table W) pf fuel rs ls ds,
+  wf (r_final (stoch_run tb pf fuel rs ls ds)) /\ wf (r_final (sync_run tb pf fuel rs ds)).
+Proof.
+  intros. split; [exact (g_wf _ _ _ _ _ (stoch_run_ginv tb pf fuel rs ls ds))|exact (g_wf _ _ _ _ _ (sync_run_ginv tb pf fuel rs ds))].
+Qed.
+
+(* ------------------------------------------------------------------ the head is the least live entry *)
+(* after _discardUnpostedEvents the head of the heap is the minimum LIVE entry under (time, id);
+   lazily deleted entries are invisible *)
+Theorem C04_head_is_min_live : forall W (s : st W), wf s ->
+  match head (queue (discard s)) with
+  | None => forall x, In x (queue s) -> e_live x = false
+  | Some h => In h (queue s) /\ e_live h = true /\
+              forall x, In x (queue s) -> e_live x = true -> x = h \/ before h x = true
+  end.
+Proof. intros W s. exact (discard_head_min_live s). Qed.
+
+Theorem C04_next_pending_time : forall W (s : st W), wf s ->
+  match fst (next_pending_time s) with
+  | None => forall x, In x (queue s) -> e_live x = false
+  | Some t => exists h, t = e_time h /\ In h (queue s) /\ e_live h = true /\
+              forall x, In x (queue s) -> e_live x = true -> x = h \/ before h x = true
+  end.
+Proof. intros W s. exact (next_pending_time_spec s). Qed.
+
+(* ------------------------------------------------------------------ un-post and query *)
+(* un-posting a pending id returns exactly its time, lazily deletes it, and the id is gone *)
+Theorem C04_unpost_live : forall W (s : st W) p t e k fatal x,
+  wf s -> ids s <> [] -> find_live (the_id k s) (queue s) = Some x ->
+  let s' := do_action p t e (AUnpost k fatal) s in
+  s' = emit (OUnpost (the_id k s) (Some (Some (e_time x)))) (set_queue (kill (the_id k s) (queue s)) s) /\
+  In x (queue s) /\ e_id x = the_id k s /\ e_live x = true /\
+  gone_st (the_id k s) s'.
+Proof.
+  intros W s p t e k fatal x Hw Hi Hf. cbv zeta. rewrite (unpost_live p t e k fatal s x Hi Hf).
+  split; [reflexivity|]. destruct (find_live_some _ _ _ Hf) as [A [B C]].
+  split; [exact A|split; [exact B|split; [exact C|exact (unpost_makes_gone _ s x Hw Hf)]]].
+Qed.
+
+(* an id that has fired or has been un-posted: KeyError when fatal, None otherwise; asking for its
+   time is a KeyError *)
+Theorem C04_unpost_gone : forall W (s : st W) p t e k fatal,
+  gone_st (the_id k s) s -> ids s <> [] ->
+  do_action p t e (AUnpost k fatal) s = emit (OUnpost (the_id k s) (if fatal then None else Some None)) s.
+Proof. intros W s p t e k fatal. exact (gone_unpost p t e k fatal s). Qed.
+
+Theorem C04_query_gone : forall W (s : st W) p t e k,
+  gone_st (the_id k s) s -> ids s <> [] ->
+  do_action p t e (AQuery k) s = emit (OQuery (the_id k s) None) s.
+Proof. intros W s p t e k. exact (gone_query p t e k s). Qed.
+
+Theorem C04_query_pending : forall W (s : st W) p t e k, ids s <> [] ->
+  do_action p t e (AQuery k) s = emit (OQuery (the_id k s) (option_map e_time (find_live (the_id k s) (queue s)))) s.
+Proof. intros W s p t e k. exact (query_spec p t e k s). Qed.
+
+(* gone is for ever: no action, no run_pending brings the id back, and it is never fired *)
+Theorem C04_gone_forever_action : forall W (s : st W) i p t e a, gone_st i s -> gone_st i (do_action p t e a s).
+Proof. intros W s i p t e a. exact (do_action_gone p t e a s i). Qed.
+
+Theorem C04_gone_forever_pending : forall W (tb : table W) fuel t n s n' s' i,
+  gone_st i s -> run_pending tb fuel t n s = (n', s') ->
+  gone_st i s' /\ ~ In i (map e_id (pending_fired tb fuel t n s)).
+Proof. intros W tb fuel t n s n' s' i G H. exact (run_pendingL_gone tb fuel t n s n' s' _ i G (run_pending_L _ _ _ _ _ _ _ H)). Qed.
+
+(* every fired entry is gone afterwards *)
+Theorem C04_fired_is_gone : forall W (tb : table W) fuel t n s n' s' x,
+  wf s -> run_pending tb fuel t n s = (n', s') -> In x (pending_fired tb fuel t n s) -> gone_st (e_id x) s'.
+Proof. intros W tb fuel t n s n' s' x Hw H. exact (run_pendingL_fired_gone tb fuel t n s n' s' _ x Hw (run_pending_L _ _ _ _ _ _ _ H)). Qed.
+
+(* in a whole run: a successful un-post of i means i never fires and is gone at the end *)
+Theorem C04_unposted_never_fires : forall W (tb : table W) pf fuel rs ls ds i r,
+  (In (OUnpost i (Some (Some r))) (r_out (stoch_run tb pf fuel rs ls ds)) ->
+     gone_st i (r_final (stoch_run tb pf fuel rs ls ds)) /\ ~ In i (map e_id (stoch_fired tb pf fuel rs ls ds))) /\
+  (In (OUnpost i (Some (Some r))) (r_out (sync_run tb pf fuel rs ds)) ->
+     gone_st i (r_final (sync_run tb pf fuel rs ds)) /\ ~ In i (map e_id (sync_fired tb pf fuel rs ds))).
+Proof.
+  intros W tb pf fuel rs ls ds i r. split.
+  - rewrite (proj1 (stoch_fields tb pf fuel rs ls ds)). exact (ginv_unposted_rev _ _ i r (stoch_run_ginv tb pf fuel rs ls ds)).
+  - rewrite (proj1 (sync_fields tb pf fuel rs ds)). exact (ginv_unposted_rev _ _ i r (sync_run_ginv tb pf fuel rs ds)).
+Qed.
+
+(* ------------------------------------------------------------------ the fired entries and their records *)
+(* what run_pending returns is the number of entries it fired; it fires only live entries due by
+   the bound; the handler records it emits are exactly those of the fired entries, in order:
+   each handler receives the entry's own time and element (C04_handler_args) *)
+Theorem C04_handler_args : forall W (tb : table W) fuel t n s n' s',
+  wf s -> run_pending tb fuel t n s = (n', s') ->
+  let l := pending_fired tb fuel t n s in
+  n' = (n + length l)%nat /\
+  (forall x, In x l -> e_time x <= t /\ e_live x = true) /\
+  exists d, out s' = d ++ out s /\ filter is_ph (rev d) = map hrec l.
+Proof.
+  intros W tb fuel t n s n' s' Hw H. cbv zeta. pose proof (run_pending_L _ _ _ _ _ _ _ H) as HL.
+  split; [exact (run_pending_count tb fuel t n s n' s' H)|split].
+  - exact (run_pendingL_fired_le tb fuel t n s n' s' _ HL).
+  - exact (run_pendingL_records tb fuel t n s n' s' _ Hw HL).
+Qed.
+
+(* ------------------------------------------------------------------ order *)
+(* the fired sequence is strictly increasing in (time, id): earlier time first, posting order on
+   ties, also for entries posted from inside handlers for times preceding entries already queued *)
+Theorem C04_order_run_pending : forall W (tb : table W) fuel t n s n' s',
+  wf s -> run_pending tb fuel t n s = (n', s') ->
+  StronglySorted (fun a b => before a b = true) (pending_fired tb fuel t n s).
+Proof. intros W tb fuel t n s n' s' Hw H. exact (run_pendingL_order tb fuel t n s n' s' _ Hw (run_pending_L _ _ _ _ _ _ _ H)). Qed.
+
+Theorem C04_order_stoch : forall W (tb : table W) pf fuel rs ls ds,
+  nonneg_tb tb -> Forall (Qle 0) ls ->
+  StronglySorted (fun a b => before a b = true) (stoch_fired tb pf fuel rs ls ds) /\
+  filter is_ph (r_out (stoch_run tb pf fuel rs ls ds)) = map hrec (stoch_fired tb pf fuel rs ls ds).
+Proof.
+  intros W tb pf fuel rs ls ds Hnn Hl. split.
+  - exact (o_sorted _ _ _ _ (proj1 (stoch_ord tb pf fuel rs ls ds Hnn Hl))).
+  - rewrite (proj1 (stoch_fields tb pf fuel rs ls ds)). exact (ph_rev _ _ (g_hrec _ _ _ _ _ (stoch_run_ginv tb pf fuel rs ls ds))).
+Qed.
+
+Theorem C04_order_sync : forall W (tb : table W) pf fuel rs ds,
+  StronglySorted (fun a b => before a b = true) (sync_fired tb pf fuel rs ds) /\
+  filter is_ph (r_out (sync_run tb pf fuel rs ds)) = map hrec (sync_fired tb pf fuel rs ds).
+Proof.
+  intros W tb pf fuel rs ds. split.
+  - exact (o_sorted _ _ _ _ (proj1 (sync_ord tb pf fuel rs ds))).
+  - rewrite (proj1 (sync_fields tb pf fuel rs ds)). exact (ph_rev _ _ (g_hrec _ _ _ _ _ (sync_run_ginv tb pf fuel rs ds))).
+Qed.
+
+(* ------------------------------------------------------------------ exactly once *)
+(* a pending entry due by the bound of a run_pending that does not run out of fuel, and that no
+   handler un-posts, fires: once (no id occurs twice among the fired), with its own time and element *)
+Theorem C04_exactly_once : forall W (tb : table W) fuel t n s n' s' y,
+  wf s -> run_pending tb fuel t n s = (n', s') -> stuck s' = false ->
+  In y (queue s) -> e_live y = true -> e_time y <= t -> ~ In (unposted y) (out s') ->
+  In y (pending_fired tb fuel t n s) /\ NoDup (map e_id (pending_fired tb fuel t n s)) /\
+  In (OHandler (e_prog y) (e_time y) (e_time y) (e_elem y) None) (out s').
+Proof.
+  intros W tb fuel t n s n' s' y Hw H.
+  exact (run_pendingL_exactly_once tb fuel t n s n' s' _ y Hw (run_pending_L _ _ _ _ _ _ _ H)).
+Qed.
+
+(* whatever happens (fuel or not), a pending entry has fired, or is still queued, or was un-posted;
+   and when the call does not run out of fuel nothing due by the bound is left, nested posts included *)
+Theorem C04_conservation : forall W (tb : table W) fuel t n s n' s',
+  wf s -> run_pending tb fuel t n s = (n', s') ->
+  (forall y, In y (queue s) -> e_live y = true ->
+     In y (pending_fired tb fuel t n s) \/ In y (queue s') \/ In (unposted y) (out s')) /\
+  (stuck s' = false -> forall x, In x (queue s') -> e_live x = true -> t < e_time x).
+Proof.
+  intros W tb fuel t n s n' s' Hw H. pose proof (run_pending_L _ _ _ _ _ _ _ H) as HL. split.
+  - intros y. exact (run_pendingL_cons tb fuel t n s n' s' _ y Hw HL).
+  - exact (run_pendingL_not_stuck tb fuel t n s n' s' _ HL).
+Qed.
+
+(* no entry fires twice in a run, ever *)
+Theorem C04_never_twice : forall W (tb : table W) pf fuel rs ls ds,
+  NoDup (map e_id (stoch_fired tb pf fuel rs ls ds)) /\ NoDup (map e_id (sync_fired tb pf fuel rs ds)).
+Proof.
+  intros. split; [exact (g_nodup _ _ _ _ _ (stoch_run_ginv tb pf fuel rs ls ds))|exact (g_nodup _ _ _ _ _ (sync_run_ginv tb pf fuel rs ds))].
+Qed.
+
+(* the fate of every id handed to user code in a run: the entry it names carries the time the user
+   posted it for, and it has fired, or was un-posted (the user got that time back), or is still queued *)
+Theorem C04_posted_fate_stoch : forall W (tb : table W) pf fuel rs ls ds i tt,
+  let r := stoch_run tb pf fuel rs ls ds in
+  In (OPosted i tt) (r_out r) ->
+  exists x, e_id x = i /\ e_time x = tt /\ e_live x = true /\
+    (In x (stoch_fired tb pf fuel rs ls ds) \/ In (OUnpost i (Some (Some tt))) (r_out r) \/ In x (queue (r_final r))).
+Proof.
+  intros W tb pf fuel rs ls ds i tt. cbv zeta. rewrite (proj1 (stoch_fields tb pf fuel rs ls ds)).
+  exact (ginv_posted_rev _ _ i tt (stoch_run_ginv tb pf fuel rs ls ds)).
+Qed.
+
+Theorem C04_posted_fate_sync : forall W (tb : table W) pf fuel rs ds i tt,
+  let r := sync_run tb pf fuel rs ds in
+  In (OPosted i tt) (r_out r) ->
+  exists x, e_id x = i /\ e_time x = tt /\ e_live x = true /\
+    (In x (sync_fired tb pf fuel rs ds) \/ In (OUnpost i (Some (Some tt))) (r_out r) \/ In x (queue (r_final r))).
+Proof.
+  intros W tb pf fuel rs ds i tt. cbv zeta. rewrite (proj1 (sync_fields tb pf fuel rs ds)).
+  exact (ginv_posted_rev _ _ i tt (sync_run_ginv tb pf fuel rs ds)).
+Qed.
+
+(* ------------------------------------------------------------------ repeating events *)
+(* each firing of a repeating entry (period ddt >= 0) posts its successor at e_time + ddt with the
+   same program, element and process; the successor then fires, stays queued or is un-posted *)
+Theorem C04_repeating_step : forall W (tb : table W) fuel t n s n' s' x ddt,
+  wf s -> run_pending tb fuel t n s = (n', s') ->
+  In x (pending_fired tb fuel t n s) -> e_rep x = Some ddt -> 0 <= ddt ->
+  exists y, succ_of x ddt y /\
+    (In y (pending_fired tb fuel t n s) \/ In y (queue s') \/ In (unposted y) (out s')).
+Proof.
+  intros W tb fuel t n s n' s' x ddt Hw H.
+  exact (run_pendingL_rep_step tb fuel t n s n' s' _ x ddt Hw (run_pending_L _ _ _ _ _ _ _ H)).
+Qed.
+
+(* hence it fires at t0, t0 + ddt, t0 + 2 ddt, ... as far as the bound reaches *)
+Theorem C04_repeating : forall W (tb : table W) fuel t n s n' s' x ddt,
+  wf s -> run_pending tb fuel t n s = (n', s') -> stuck s' = false ->
+  (forall i r, ~ In (OUnpost i (Some (Some r))) (out s')) ->
+  In x (pending_fired tb fuel t n s) -> e_rep x = Some ddt -> 0 <= ddt ->
+  forall k : nat, e_time x + inject_Z (Z.of_nat k) * ddt <= t ->
+  exists y, In y (pending_fired tb fuel t n s) /\ e_time y == e_time x + inject_Z (Z.of_nat k) * ddt /\
+            e_prog y = e_prog x /\ e_elem y = e_elem x /\ e_proc y = e_proc x /\ e_rep y = Some ddt.
+Proof.
+  intros W tb fuel t n s n' s' x ddt Hw H.
+  exact (run_pendingL_rep_chain tb fuel t n s n' s' _ x ddt Hw (run_pending_L _ _ _ _ _ _ _ H)).
+Qed.
+
+Theorem C04_repeating_runs : forall W (tb : table W) pf fuel rs ls ds x ddt,
+  e_rep x = Some ddt -> 0 <= ddt ->
+  (In x (stoch_fired tb pf fuel rs ls ds) ->
+     exists y, succ_of x ddt y /\
+       (In y (stoch_fired tb pf fuel rs ls ds) \/ In y (queue (r_final (stoch_run tb pf fuel rs ls ds))) \/
+        In (unposted y) (r_out (stoch_run tb pf fuel rs ls ds)))) /\
+  (In x (sync_fired tb pf fuel rs ds) ->
+     exists y, succ_of x ddt y /\
+       (In y (sync_fired tb pf fuel rs ds) \/ In y (queue (r_final (sync_run tb pf fuel rs ds))) \/
+        In (unposted y) (r_out (sync_run tb pf fuel rs ds)))).
+Proof.
+  intros W tb pf fuel rs ls ds x ddt Hr Hd. split; intros Hx.
+  - rewrite (proj1 (stoch_fields tb pf fuel rs ls ds)). exact (ginv_rep_rev _ _ x ddt (stoch_run_ginv tb pf fuel rs ls ds) Hx Hr Hd).
+  - rewrite (proj1 (sync_fields tb pf fuel rs ds)). exact (ginv_rep_rev _ _ x ddt (sync_run_ginv tb pf fuel rs ds) Hx Hr Hd).
+Qed.
+
+(* ------------------------------------------------------------------ end of a run *)
+(* when StochasticDynamics.do returns (not stuck), every posted event still pending is due at or
+   after the reported end time: everything due strictly before it has fired or was un-posted *)
+Theorem C04_stochastic_end : forall W (tb : table W) pf fuel rs ls ds,
+  nonneg_tb tb -> Forall (Qle 0) ls ->
+  let r := stoch_run tb pf fuel rs ls ds in
+  r_stuck r = false -> forall x, In x (queue (r_final r)) -> e_live x = true -> r_time r <= e_time x.
+Proof.
+  intros W tb pf fuel rs ls ds Hnn Hl. cbv zeta. intros Hs.
+  exact (t_live _ _ _ _ (stoch_tinv tb pf fuel rs ls ds Hnn Hl Hs)).
+Qed.
+
+(* synchronous: every pending event is due at or after the last executed step TIME - 1 *)
+Theorem C04_synchronous_end : forall W (tb : table W) pf fuel rs ds,
+  let r := sync_run tb pf fuel rs ds in
+  r_stuck r = false -> forall x, In x (queue (r_final r)) -> e_live x = true -> r_time r <= e_time x + 1.
+Proof.
+  intros W tb pf fuel rs ds. cbv zeta. intros Hs x Hx Hl.
+  destruct (sync_tinv tb pf fuel rs ds Hs) as [L [HL T]]. pose proof (t_live _ _ _ _ T x Hx Hl). rewrite <- HL. lra.
+Qed.
+
+(* ------------------------------------------------------------------ refinement to the abstract sorted queue *)
+(* absq q: exactly the live entries of q, sorted by (time, id), strictly when ids are distinct *)
+Theorem C04_abs_spec : forall q,
+  (forall x, In x (absq q) <-> In x q /\ e_live x = true) /\
+  StronglySorted (fun a b => before b a = false) (absq q) /\
+  (NoDup (map e_id q) -> StronglySorted (fun a b => before a b = true) (absq q)).
+Proof. intros q. split; [exact (absq_in q)|split; [exact (absq_asc q)|exact (absq_strict q)]]. Qed.
+
+(* postEvent is sorted insertion *)
+Theorem C04_refines_post : forall W (s : st W) t p e prog rep,
+  Qltb t (clock s) = false ->
+  absq (queue (snd (post t p e prog rep s))) = insert (mk_entry t (nextid s) p e prog rep) (absq (queue s)).
+Proof. intros W s t p e prog rep H. unfold post. rewrite H. exact (absq_post (mk_entry t (nextid s) p e prog rep) (queue s) eq_refl). Qed.
+
+(* unpostEvent deletes the id from the abstract queue (lazy deletion in the heap is invisible) *)
+Theorem C04_refines_unpost : forall i q, absq (kill i q) = filter (id_not i) (absq q).
+Proof. exact absq_kill. Qed.
+
+(* _discardUnpostedEvents does not change the abstract queue *)
+Theorem C04_refines_discard : forall W (s : st W), wf s -> absq (queue (discard s)) = absq (queue s).
+Proof. intros W s Hw. exact (absq_discard _ (queue s) (proj1 Hw)). Qed.
+
+(* the head of the heap after discarding is the head of the abstract queue, and popping it leaves the tail *)
+Theorem C04_refines_head : forall W (s : st W), wf s -> head (queue (discard s)) = hd_error (absq (queue s)).
+Proof. intros W s. exact (absq_head s). Qed.
+
+Theorem C04_refines_pop : forall W (s : st W) h, wf s -> head (queue (discard s)) = Some h ->
+  absq (remove_id (e_id h) (queue (discard s))) = tl (absq (queue s)).
+Proof. intros W s h. exact (absq_pop s h). Qed.
+
+(* ------------------------------------------------------------------ non-vacuity *)
+(* Proofs/KernelExample.v.  After set-up the heap holds ids 0 (1/2, repeating), 1 (2), 2 (5/2) and the
+   un-posted 3 (7/4, dead).  run_pending up to 5/2 fires six entries: the repeating one at 1/2 and 3/2,
+   id 1 at 2 whose handler posts id 6 for 9/4 (before the queued 5/2), then 6, then the tie at 5/2 in
+   posting order (id 2 before the third repetition id 5); the dead entry never fires; the successor
+   7/2 stays queued. *)
+Example C04_example_run_pending :
+  let s := setup_state ex_tb [] [] [] in
+  wf s /\
+  map (fun x => (key x, e_live x)) (queue s) =
+    [((7 # 4, 3%nat), false); ((5 # 2, 2%nat), true); ((2, 1%nat), true); ((1 # 2, 0%nat), true)] /\
+  map key (absq (queue s)) = [(1 # 2, 0%nat); (2, 1%nat); (5 # 2, 2%nat)] /\
+  option_map key (head (queue (discard s))) = Some (1 # 2, 0%nat) /\
+  let '(n, s') := run_pending ex_tb 20 (5 # 2) 0 s in
+  n = 6%nat /\ stuck s' = false /\
+  map key (pending_fired ex_tb 20 (5 # 2) 0 s) =
+    [(1 # 2, 0%nat); (3 # 2, 4%nat); (2, 1%nat); (9 # 4, 6%nat); (5 # 2, 2%nat); (5 # 2, 5%nat)] /\
+  map (fun x => (key x, e_live x)) (queue s') = [((7 # 2, 7%nat), true)].
+Proof.
+  cbv zeta. split; [|repeat split; vm_compute; reflexivity].
+  split; vm_compute; [repeat constructor; cbn; intuition discriminate|repeat constructor].
+Qed.
+
+(* whole runs on the same table (outputs in Properties/C03.v): the premises of the order theorems
+   hold and the fired sequences are as expected; at the end of the stochastic run (TIME = 4) the
+   only pending entry is due at 9/2 *)
+Example C04_example_runs :
+  nonneg_tb ex_tb /\ Forall (Qle 0) ex_lns /\
+  r_stuck (stoch_run ex_tb 50 50 ex_rands ex_lns ex_draws) = false /\
+  map key (stoch_fired ex_tb 50 50 ex_rands ex_lns ex_draws) =
+    [(1 # 2, 0%nat); (3 # 2, 4%nat); (2, 1%nat); (9 # 4, 6%nat); (5 # 2, 2%nat); (5 # 2, 5%nat); (7 # 2, 7%nat)] /\
+  map (fun x => (key x, e_live x)) (queue (r_final (stoch_run ex_tb 50 50 ex_rands ex_lns ex_draws))) =
+    [((9 # 2, 8%nat), true)] /\
+  r_stuck (sync_run ex_tb 50 50 ex_sync_rands ex_draws) = false /\
+  map key (sync_fired ex_tb 50 50 ex_sync_rands ex_draws) = [(1 # 2, 0%nat); (3 # 2, 4%nat); (2, 1%nat)] /\
+  map (fun x => (key x, e_live x)) (queue (r_final (sync_run ex_tb 50 50 ex_sync_rands ex_draws))) =
+    [((9 # 4, 6%nat), true); ((5 # 2, 5%nat), true); ((5 # 2, 2%nat), true)].
+Proof.
+  split; [|split].
+  - repeat constructor. unfold Qle. cbn. lia.
+  - repeat constructor; unfold Qle; cbn; lia.
+  - repeat split; vm_compute; reflexivity.
+Qed.
